@@ -146,7 +146,7 @@ def gen_scalar(rng, want):
 def gen_tree(rng, depth, want, budget):
     """want in r b s set-r set-s set-b any. budget: [remaining ** operators]."""
     if want == "any":
-        want = rng.choice(["r", "r", "r", "b", "b", "s", "set-r", "set-r", "set-s"])
+        want = rng.choice(["r", "r", "r", "b", "b", "s", "set-r", "set-r", "set-s"]) if rng.random() < 0.96 else rng.choice(["set-set-r", "set-set-s", "set-set-b"])
     if want.startswith("set-"):
         ek = want[4:]
         r = rng.random()
@@ -206,7 +206,7 @@ def gen_tree(rng, depth, want, budget):
         if r < 0.85:
             k = rng.choice(["b", "s"])
             return ("bin", rng.choice(["==", "!="]), gen_tree(rng, depth - 1, k, budget), gen_tree(rng, depth - 1, k, budget))
-        k = rng.choice(["set-r", "set-r", "set-s"])
+        k = rng.choice(["set-r", "set-r", "set-s"]) if rng.random() < 0.9 else "set-set-r"
         left = gen_tree(rng, depth - 1, k, budget)
         rel = rng.random()
         if rel < 0.55 and left[0] == "set" and left[1]:
@@ -239,7 +239,7 @@ def small_exponent(rng):
 def inject_error(rng, t):
     """Replaces one sub-tree so that the expression becomes undefined in a known way. Returns (tree, error class)."""
     kind = rng.choice(["type-mismatch", "div-zero", "mod-zero", "bitwise-nonint", "empty-set", "empty-intersection",
-                       "heterogeneous-set", "unknown-attribute", "unknown-identifier", "order-strings", "logic-nonbool",
+                       "heterogeneous-set", "heterogeneous-nested-set", "unknown-attribute", "unknown-identifier", "order-strings", "logic-nonbool",
                        "not-nonbool", "set-vs-scalar-compare", "neg-string", "attr-on-scalar", "zero-neg-power"])
     r = lambda w: gen_tree(rng, 1, w, [1])  # noqa
     bad = {
@@ -250,6 +250,7 @@ def inject_error(rng, t):
         "empty-set": lambda: ("set", ()),
         "empty-intersection": lambda: ("bin", "&", ("set", (("int", 1), ("int", 2))), ("set", (("int", 3),))),
         "heterogeneous-set": lambda: ("set", (r("r"), r(rng.choice(["b", "s"])))),
+        "heterogeneous-nested-set": lambda: ("set", (r("set-r"), r(rng.choice(["set-s", "set-b", "set-set-r"])))),
         "unknown-attribute": lambda: ("attr", r("set-r"), rng.choice(["size", "length", "Min", "first"])),
         "unknown-identifier": lambda: ("id", rng.choice(["UNKNOWN", "k7", "_x", "offset"])),
         "order-strings": lambda: ("bin", rng.choice(["<", ">="]), r("s"), r("s")),
